@@ -559,3 +559,115 @@ Theorem hist_memo_needs_inplace :
   pure_run [] ex_lines [] [HParse 0; HParse 1; HSet 0 1 (VList ["x"]); HParse 1].
 Proof. exact hist_memo_needs_inplace. Qed.
 Print Assumptions hist_memo_needs_inplace.
+
+(* ------------------------------------------------------------------ round j: key signatures as the code reads and writes them *)
+(* Model/C07_Key.v models the ALGORITHM (the theorems keysig_* above go through the tabulated name table): MAJOR_KEYS / MINOR_KEYS
+   indexed by fifths + 7 and the three spellings (key_str); key_name_to_fifths_mode as arithmetic on the circle of fifths (kn2fm);
+   _parse_key_signature = plain 1.0.0 names first, then the regular expression of the older formats searched with backtracking, then
+   the upper-case fallback (parse_key_with, the list of plain names a parameter); from_string = interpret_as_list + the 0.1.0 form
+   recognised by its second item (key_from_string).  key_cfg (the two key lists, the three regular expressions) is reflected from
+   the library on every run (Gen/C07_KeyCfg.v). *)
+From PV Require Import Model.C07_Key Gen.C07_KeyCfg Proofs.C07_key.
+
+(* every key of the domain, every spelling (0: [en,major]  1: E Maj  3: E): the text the writer makes is read back as the same key *)
+Theorem key_code_roundtrip : forall fmt f mi,
+  In fmt [0; 1; 3] -> -7 <= f <= 7 ->
+  exists t, key_str key_cfg fmt false ((f, mi), None) [] = Some t /\
+            key_from_string key_cfg t = Some (((f, mi), None), []).
+Proof. exact key_code_roundtrip_lemma. Qed.
+Print Assumptions key_code_roundtrip.
+
+(* ... with an alternative key, plain and as a one-element list *)
+Theorem key_code_alt_roundtrip : forall fmt isl f mi f2 mi2,
+  In fmt [1; 3] -> -7 <= f <= 7 -> -7 <= f2 <= 7 ->
+  exists t, key_str key_cfg fmt isl ((f, mi), Some (f2, mi2)) [] = Some t /\
+            key_from_string key_cfg t = Some (((f, mi), Some (f2, mi2)), []).
+Proof. exact key_code_alt_roundtrip_lemma. Qed.
+Print Assumptions key_code_alt_roundtrip.
+
+(* unbounded: the list spelling of 0.3.0 - 0.5.0 with ANY number of further components, each with or without alternative *)
+Theorem key_list_roundtrip : forall k others,
+  key1_in_range k -> Forall key1_in_range others ->
+  exists t, key_str key_cfg 1 true k others = Some t /\ key_from_string key_cfg t = Some (k, others).
+Proof. exact key_list_roundtrip_lemma. Qed.
+Print Assumptions key_list_roundtrip.
+
+Theorem key_list_example :
+  key_str key_cfg 1 true ((-4, false), Some (-4, true)) [((0, false), None); ((3, true), Some (1, false)); ((7, true), None)]
+    = Some "[Ab Maj/F min,C Maj,F# min/G Maj,A# min]" /\
+  key_from_string key_cfg "[Ab Maj/F min,C Maj,F# min/G Maj,A# min]"
+    = Some (((-4, false), Some (-4, true)), [((0, false), None); ((3, true), Some (1, false)); ((7, true), None)]).
+Proof. exact key_list_example. Qed.
+Print Assumptions key_list_example.
+
+(* unbounded, ALL texts: if every "/"-part (one or two) of a text, blanks around it dropped, is a plain 1.0.0 key name, the text is
+   read as exactly those keys (fifths within -7..7), whatever the regular expression of the older formats would make of it, and
+   the 1.0.0 spelling of what was read is the text without the blanks (formatting is a fixpoint after one round) *)
+Theorem key_v1_text_fixpoint : forall s,
+  let names := map strip_ws (split_on "/" s) in
+  (List.length names = 1 \/ List.length names = 2)%nat ->
+  forallb (fun x => mem_str x (valid_v1_names key_cfg)) names = true ->
+  exists k, parse_key key_cfg s = Some k /\
+            key_str1 key_cfg 3 k = Some (join "/" names) /\
+            -7 <= fst (fst k) <= 7.
+Proof. exact key_v1_text_fixpoint_lemma. Qed.
+Print Assumptions key_v1_text_fixpoint.
+
+Theorem key_v1_text_example :
+  let s := " Ab / F#m  " in
+  forallb (fun x => mem_str x (valid_v1_names key_cfg)) (map strip_ws (split_on "/" s)) = true /\
+  parse_key key_cfg s = Some ((-4, false), Some (3, true)) /\
+  key_str1 key_cfg 3 ((-4, false), Some (3, true)) = Some "Ab/F#m".
+Proof. exact key_v1_text_example. Qed.
+Print Assumptions key_v1_text_example.
+
+(* the statements discriminate: the list of plain names built over range(-7, 7) (seven sharps missing) -- A# minor, written
+   "A#m", falls through to the older pattern and comes back as ten sharps major *)
+Theorem key_names_range_refuted :
+  key_str key_cfg 3 false ((7, true), None) [] = Some "A#m" /\
+  key_from_string key_cfg "A#m" = Some (((7, true), None), []) /\
+  key_from_string_with key_cfg names_without_seven_sharps "A#m" = Some (((10, false), None), []) /\
+  key_from_string_with key_cfg names_without_seven_sharps "C#/A#m" <> Some (((7, false), Some (7, true)), []).
+Proof. exact key_names_range_refuted. Qed.
+Print Assumptions key_names_range_refuted.
+
+(* ... and the older pattern consulted first (no plain names known): the flat sign of "Ab" is taken for the mode word *)
+Theorem key_old_pattern_first_refuted :
+  key_str key_cfg 3 false ((-4, false), None) [] = Some "Ab" /\
+  key_from_string key_cfg "Ab" = Some (((-4, false), None), []) /\
+  key_from_string_with key_cfg [] "Ab" = Some (((3, false), None), []).
+Proof. exact key_old_pattern_first_refuted. Qed.
+Print Assumptions key_old_pattern_first_refuted.
+
+(* the 0.1.0 form is recognised by the SECOND item of a two-item list being a mode word: the side condition of
+   key_list_roundtrip "no written key text is a mode word" is needed *)
+Theorem key_v01_form_by_second_item :
+  key_from_string key_cfg "[f#,minor]" = Some (((3, true), None), []) /\
+  map_opt (parse_key key_cfg) (interp_list key_cfg "[f#,minor]") = None /\
+  key_from_string key_cfg "[F# min,Maj]" = Some (((6, false), None), []).
+Proof. exact key_v01_form_by_second_item. Qed.
+Print Assumptions key_v01_form_by_second_item.
+
+(* unbounded: every key of the domain, ANY runs of blanks (blank, tab, ...) before and after its plain 1.0.0 name ... *)
+Theorem key_v1_blanks_single : forall k n w1 w2,
+  -7 <= fst k <= 7 -> fm2kn_v1 key_cfg k = Some n ->
+  all_chars py_space w1 = true -> all_chars py_space w2 = true ->
+  parse_key key_cfg (w1 ++ n ++ w2) = Some (k, None).
+Proof. exact key_v1_blanks_single_lemma. Qed.
+Print Assumptions key_v1_blanks_single.
+
+(* ... and every pair of keys, blanks before and after both names and around the "/": read as exactly the two keys *)
+Theorem key_v1_blanks_pair : forall k k2 n n2 w1 w2 w3 w4,
+  -7 <= fst k <= 7 -> -7 <= fst k2 <= 7 -> fm2kn_v1 key_cfg k = Some n -> fm2kn_v1 key_cfg k2 = Some n2 ->
+  all_chars py_space w1 = true -> all_chars py_space w2 = true ->
+  all_chars py_space w3 = true -> all_chars py_space w4 = true ->
+  parse_key key_cfg ((w1 ++ n ++ w2) ++ "/" ++ (w3 ++ n2 ++ w4)) = Some (k, Some k2).
+Proof. exact key_v1_blanks_pair_lemma. Qed.
+Print Assumptions key_v1_blanks_pair.
+
+(* the names looked up as they stand between the separators (no strip): the same text is not read as the two keys *)
+Theorem key_v1_blanks_nostrip_refuted :
+  parse_key key_cfg "Ab / F#m" = Some ((-4, false), Some (3, true)) /\
+  parse_key_nostrip "Ab / F#m" <> Some ((-4, false), Some (3, true)).
+Proof. exact key_v1_blanks_nostrip_refuted. Qed.
+Print Assumptions key_v1_blanks_nostrip_refuted.
